@@ -432,6 +432,8 @@ def _sysmodule_reads(tree):
     out = []
     for n in ast.walk(tree):
         if isinstance(n, ast.Subscript) and isinstance(n.ctx, ast.Load) and dotted(n.value) == "sys.modules":
+            if isinstance(n.slice, ast.Name) and n.slice.id == "__name__":
+                continue  # the module that is running this very statement
             out.append(n)
         elif isinstance(n, ast.Call) and isinstance(n.func, ast.Attribute) and n.func.attr in ("get", "pop", "setdefault") and dotted(n.func.value) == "sys.modules":
             out.append(n)
@@ -472,10 +474,9 @@ def _state_writing_methods(cd):
                 tg = n.targets
             elif isinstance(n, (ast.AugAssign, ast.AnnAssign)):
                 tg = [n.target]
-            hit = any(isinstance(x, ast.Attribute) and isinstance(x.value, ast.Name) and x.value.id == sp and isinstance(x.ctx, ast.Store) for t in tg for x in ast.walk(t)) or \
-                any(isinstance(x, ast.Subscript) and isinstance(x.ctx, ast.Store) and isinstance(x.value, ast.Attribute) and isinstance(x.value.value, ast.Name) and x.value.value.id == sp for t in tg for x in ast.walk(t))
-            if not hit and isinstance(n, ast.Call) and isinstance(n.func, ast.Attribute) and n.func.attr in _MUTATORS and isinstance(n.func.value, ast.Attribute) and isinstance(n.func.value.value, ast.Name) and n.func.value.value.id == sp:
-                hit = True
+            # a field that is *rebound* per call (a flag, a position, the current value); entries added to a container the object
+            # holds (a memo keyed by its argument) are not judged here
+            hit = any(isinstance(x, ast.Attribute) and isinstance(x.value, ast.Name) and x.value.id == sp and isinstance(x.ctx, ast.Store) for t in tg for x in ast.walk(t))
             if hit:
                 out.append((m, n))
                 break
